@@ -383,11 +383,11 @@ class Spec(core.PropSpec):
                         got, exp = list(rep), [ref(j) for j in range(n)]
                     else:
                         got, exp = len(rep), n_ref
-            except InjectedReadError:
-                out.count("fault:transient_read_error_in_root")
-                out.ev("io-error", op)
-                continue  # the access failed (that is allowed); what comes after it must be right again
             except Exception as e:
+                if core.caused_by(e, InjectedReadError):
+                    out.count("fault:transient_read_error_in_root")
+                    out.ev("io-error", op)
+                    continue  # the access failed (that is allowed); what comes after it must be right again
                 out.violate(f"C01:raises:{type(e).__name__}", f"{kind},{site}", f"stack={S.sig(stack)} mode='{mode}' access {op}: {type(e).__name__}: {e}")
                 out.ev("raised", op, type(e).__name__)
                 break
